@@ -237,8 +237,12 @@ async fn reader(sh: Shared, ep: &'static str, mut r: ReceiveStream, delay_us: u6
     }
 }
 
+/// number of stream roles the scenario will run on both endpoints (the closer waits for all of them)
+pub fn expected_roles(sc: &Scenario) -> i64 {
+    2 + sc.streams.iter().map(|s| if s.bidi { 4 } else { 2 }).sum::<i64>()
+}
+
 fn role<F: Future<Output = ()> + Send + 'static>(sh: &Shared, f: F) {
-    sh.outstanding.fetch_add(1, Ordering::SeqCst);
     let sh2 = sh.clone();
     primary::spawn(async move {
         f.await;
